@@ -486,37 +486,48 @@ func (serviceCore *ServiceCore) FilterDatasets(
 	result := make([]server.DatasetName, 0)
 
 	for _, dataset := range datasets {
-		for _, ac := range acl {
-			if serviceCore.CheckGranted(ac, "/datasets/"+dataset.Name, "read") {
-				result = append(result, dataset)
-			}
+		if serviceCore.IsGranted(acl, "/datasets/"+dataset.Name, "read") {
+			result = append(result, dataset)
 		}
 	}
 
 	return result, nil
 }
 
-func (serviceCore *ServiceCore) CheckGranted(ac *AccessControl, resource string, action string) bool {
-	if ac.Resource == resource {
-		if action == "read" && (ac.Action == "read" || ac.Action == "write") {
-			return !ac.Deny
-		} else if action == ac.Action {
-			return !ac.Deny
+// IsGranted evaluates a list of access controls for an action on a resource. The action is granted if at
+// least one access control allows it and no access control denies it, independent of their order in the list.
+func (serviceCore *ServiceCore) IsGranted(acl []*AccessControl, resource string, action string) bool {
+	granted := false
+	for _, ac := range acl {
+		if !ac.appliesTo(resource, action) {
+			continue
 		}
+		if ac.Deny {
+			return false
+		}
+		granted = true
 	}
+	return granted
+}
+
+func (serviceCore *ServiceCore) CheckGranted(ac *AccessControl, resource string, action string) bool {
+	return ac.appliesTo(resource, action) && !ac.Deny
+}
+
+// appliesTo checks if the access control is about the given resource and action. A write access control
+// also applies to read.
+func (ac *AccessControl) appliesTo(resource string, action string) bool {
+	matches := ac.Resource == resource
 
 	// if the ac has a resource with trailing * this should be treated as a pattern
-	// grants access to any resource that starts with this pattern and correct action
-	if strings.HasSuffix(ac.Resource, "*") {
+	// it applies to any resource that starts with this pattern
+	if !matches && strings.HasSuffix(ac.Resource, "*") {
 		pattern := ac.Resource[:len(ac.Resource)-1]
-		if strings.HasPrefix(resource, pattern) {
-			if action == "read" && (ac.Action == "read" || ac.Action == "write") {
-				return !ac.Deny
-			} else if action == ac.Action {
-				return !ac.Deny
-			}
-		}
+		matches = strings.HasPrefix(resource, pattern)
 	}
 
-	return false
+	if !matches {
+		return false
+	}
+	return action == ac.Action || (action == "read" && ac.Action == "write")
 }
